@@ -13,7 +13,7 @@ def key(case, variant, tag, step):
 
 def variants(idx):
     return dict(engine=["pickle", "csv"][idx % 2], shuffle=[False, 3, False, True][idx % 4], batchsize=[1, 2, 5][idx % 3],
-                nan_point=(idx % 3 == 1), flip_keys=(idx % 5 in (1, 2)), mixed_types=(idx % 3 == 2), compressed=(idx % 7 == 3))
+                nan_point=(idx % 3 == 1), flip_keys=(idx % 5 in (1, 2)), mixed_types=(idx % 3 == 2), compressed=(idx % 7 == 3), nd_result=(idx % 4 == 1))
 
 
 def random_choice_runs(rep, n):
@@ -26,13 +26,19 @@ def random_choice_runs(rep, n):
         try:
             np.random.seed(rep.seed + i)
             prev = []
-            for step in range(rnd.randint(1, 4)):
-                if rnd.random() < 0.3:
+            # every fifth world: a long campaign on ONE Sampler object in which every run brings its own, freshly built
+            # override list (the lists of earlier runs are garbage by then)
+            long_ = (i % 5 == 4)
+            for step in range(14 if long_ else rnd.randint(1, 4)):
+                if rnd.random() < 0.3 and not long_:
                     w.new_session(1)
                 k = rnd.randint(1, 4)
                 harvest.VER[0] = rnd.choice([1, 2])
                 # an override outside the defaults (also a float, unless this variant checks that a arrives as an int)
-                over = {"a": [rnd.choice([7, 8] if w.mixed else [7.5, 8, 7.5])]} if rnd.random() < 0.4 else None
+                if long_:
+                    over = {"a": [4 + step, 40 + step]}
+                else:
+                    over = {"a": [rnd.choice([7, 8] if w.mixed else [7.5, 8, 7.5])]} if rnd.random() < 0.4 else None
                 import contextlib, io
                 with contextlib.redirect_stdout(io.StringIO()), contextlib.redirect_stderr(io.StringIO()):
                     w.samplers[1].sample_combos(k, over, verbosity=0)
